@@ -49,6 +49,9 @@ CHECKS["C11"] = dict(cat="proof", tech=TECH,
 CHECKS["C12"] = dict(cat="proof", tech=TECH,
    text="Contracts on the chunked EventIterator (inductive step of __next__ over arbitrary states, chunk loading by index entries), HDF5Reader indexing/slicing/iteration, and FileGenerator replay across files and chunk sizes, against a model of the index and data tables.",
    note=PROOF_NOTE + " Chunk sizes for _load_data and FileGenerator scenarios are bounded (B); h5py is a model (A8).", ref="§5 C12")
+CHECKS["C19"] = dict(cat="proof", tech=TECH,
+   text="Contracts on flatten (induction step against its recursive specification), on Detector/CombinedDetector iteration, length, indexing, +, +=, sum, default trigger with symbolic hit flags, clear, position test with symbolic depth, and keyword routing of build_antennas, executed through the real class machinery.",
+   note=PROOF_NOTE + " Detector shapes are bounded (B); trigger keyword routing by error-message parsing is N.", ref="§5 C19")
 NOT_YET = {}
 def main():
     props = [json.loads(l) for l in open(os.path.join(HERE, "properties.jsonl"))]
